@@ -28,6 +28,12 @@ func init() {
 
 func runC07(c *core.Ctx, b core.Batch) {
 	types := shard(codecTypes(b), b.N, nbOf(b, c.Tier))
+	if b.Cfg == "base" && b.N == 1 {
+		// dynamicpb over PRNG-generated schemas: message shapes no linked type has
+		dt := schemaDynTypes(c, 0x7, c.Scale(6, 60))
+		c.CountN("generated_schema_dynamic_types", int64(len(dt)))
+		types = append(types, dt...)
+	}
 	per := c.Scale(12, 150)
 	if b.Cfg == "race" {
 		per = c.Scale(3, 30)
